@@ -102,6 +102,23 @@ func (c c03) Gen(rt *rapid.T, thorough bool) any {
 			sys.Props["enableCaller"] = "false"
 		}
 		kinds := []string{"Console", "File", "RollingFile"}
+		if lk := rapid.SampledFrom([]string{"", "", "", "Console", "File", "RollingFile", "RollingFile"}).Draw(rt, "logger_kind"); lk != "" {
+			// a logger type that owns its target (events still enter through the public API)
+			lg := LogSpec{Name: "main", Type: lk, Tags: []string{"_app_*"}}
+			lg.Layout = rapid.SampledFrom([]string{"", "TextLayout", "JSONLayout"}).Draw(rt, "lk_layout")
+			switch lk {
+			case "File":
+				lg.FileDir, lg.FileName = "/logs", "lk.log"
+			case "RollingFile":
+				lg.FileDir, lg.FileName, lg.Rotation = "/logs", "lk.log", rapid.SampledFrom([]string{"h", "2s"}).Draw(rt, "lk_rot")
+				lg.Separate = rapid.Bool().Draw(rt, "lk_sep")
+				s.AdvanceMs = rapid.SampledFrom([]int64{0, 1500, 3600000}).Draw(rt, "lk_adv")
+			}
+			sys.Apps = []AppSpec{{Name: "unused", Type: "Discard"}}
+			sys.Logs = []LogSpec{lg}
+			s.Sys = sys
+			break
+		}
 		nApp := rapid.IntRange(1, 2).Draw(rt, "napp")
 		lg := LogSpec{Name: "main", Type: "Logger", Tags: []string{"_app_*"}}
 		if rapid.Bool().Draw(rt, "as_root") {
@@ -151,6 +168,7 @@ type sinkRec struct {
 	layout string
 	width  int
 	lo, hi int32 // reference range (events with code in [lo,hi) are routed here)
+	exclude string // rolling: path prefix that belongs to a sibling sink
 }
 
 func (c c03) Run(x *Exec, scn any) {
@@ -215,7 +233,23 @@ func (c c03) Run(x *Exec, scn any) {
 		lg := s.Sys.Logs[0]
 		loggerRange, _ = modelRange(lg.Level)
 		ranges := modelRefRanges(lg.Refs)
+		switch lg.Type {
+		case "Console":
+			sinks = append(sinks, sinkRec{name: "stdout", kind: "console", layout: lg.Layout, width: lg.Width, lo: 0, hi: 999})
+		case "File":
+			sinks = append(sinks, sinkRec{name: "/logs/" + lg.FileName, kind: "file", layout: lg.Layout, width: lg.Width, lo: 0, hi: 999})
+		case "RollingFile":
+			if lg.Separate {
+				sinks = append(sinks, sinkRec{name: "/logs/" + lg.FileName + ".", exclude: "/logs/" + lg.FileName + ".wf.", kind: "rolling", layout: lg.Layout, width: lg.Width, lo: 0, hi: 400})
+				sinks = append(sinks, sinkRec{name: "/logs/" + lg.FileName + ".wf.", kind: "rolling", layout: lg.Layout, width: lg.Width, lo: 400, hi: 999})
+			} else {
+				sinks = append(sinks, sinkRec{name: "/logs/" + lg.FileName + ".", kind: "rolling", layout: lg.Layout, width: lg.Width, lo: 0, hi: 999})
+			}
+		}
 		for i, a := range s.Sys.Apps {
+			if lg.Type != "Logger" {
+				break
+			}
 			sk := sinkRec{layout: a.Layout, width: a.Width, lo: ranges[i].Min, hi: ranges[i].Max}
 			if lg.Layout != "" || lg.Width != 0 {
 				sk.layout, sk.width = lg.Layout, lg.Width
@@ -304,7 +338,7 @@ func (c c03) Run(x *Exec, scn any) {
 			got = fileWrites(x, sk.name)
 		case "rolling":
 			for _, e := range x.FS.List("/logs") {
-				if strings.HasPrefix("/logs/"+e.Name, sk.name) {
+				if strings.HasPrefix("/logs/"+e.Name, sk.name) && (sk.exclude == "" || !strings.HasPrefix("/logs/"+e.Name, sk.exclude)) {
 					got = append(got, fileWrites(x, "/logs/"+e.Name)...)
 				}
 			}
@@ -426,7 +460,7 @@ func (c c03) judgeAcks(x *Exec, s *C03Scn, sinks []sinkRec, all []*Submitted, ac
 				found = n <= len(data) && strings.Contains(string(data[:n]), line)
 			case "rolling":
 				for name, n := range a.files {
-					if strings.HasPrefix(name, sk.name) {
+					if strings.HasPrefix(name, sk.name) && (sk.exclude == "" || !strings.HasPrefix(name, sk.exclude)) {
 						data, _ := x.FS.ReadFile(name)
 						if n <= len(data) && strings.Contains(string(data[:n]), line) {
 							found = true
